@@ -280,58 +280,51 @@ def getValueInt (t : IntTy) (m : Mag) : Option Int :=
 def overflowThreshold : Int := 2147
 
 /-- `CanScaleThresholdWithoutOverflow<Rep, SF>` for an integral `Rep` and an *integer* `SF`
-(the only case in which `stdx::conjunction` instantiates it).  Both conjuncts are template
-arguments and are evaluated eagerly: `can_scale_without_overflow<Rep>(SF, 2147)` calls
-`get_value<Rep>(SF)`, whose `static_assert` makes the program ill-formed when `SF` does not fit
-`Rep` (finding F2), unless `get_value<double>(SF) <= 1.0`, i.e. `SF = 1`. -/
-def canScaleThreshold (t : IntTy) (sf : Mag) : Outcome Bool :=
+(the only case in which `stdx::conjunction` instantiates it):
+`in_range<Rep>(2147) && can_scale_without_overflow<Rep>(SF, 2147)`, the latter (conversion_policy.hh:26-46,
+after the fix of finding F2) being: true when `get_value_result<double>(SF)` is OK and `<= 1.0`
+(for an integer `SF`: `SF = 1`); false when `SF` is not representable in `Rep`; otherwise
+`max(Rep) / SF >= 2147`. -/
+def canScaleThreshold (t : IntTy) (sf : Mag) : Bool :=
   let inRange : Bool := decide (overflowThreshold ≤ t.hi)          -- stdx::in_range<Rep>(2147)
-  if sf.natValue ≤ 1 then .ok inRange                               -- "scales that shrink"
-  else match getValueInt t sf with
-    | none => .hard "get_value<Rep>: value outside range of destination type"
-    | some k => .ok (inRange && decide (Int.tdiv t.hi k ≥ overflowThreshold))
+  let canScale : Bool :=
+    if sf.natValue ≤ 1 then true                                    -- "scales that shrink"
+    else match getValueInt t sf with
+      | none => false                                               -- SF does not fit Rep
+      | some k => decide (Int.tdiv t.hi k ≥ overflowThreshold)
+  inRange && canScale
 
 /-- `CoreImplicitConversionPolicy<Rep, SF, SourceRep>` (real reps). -/
-def corePolicy (rep : Rep) (sf : Mag) (src : Rep) : Outcome Bool :=
-  if sf = [] ∧ rep = src then .ok true                 -- the `<Rep, Magnitude<>, Rep>` specialisation
+def corePolicy (rep : Rep) (sf : Mag) (src : Rep) : Bool :=
+  if sf = [] ∧ rep = src then true                      -- the `<Rep, Magnitude<>, Rep>` specialisation
   else match rep.intTy? with
-    | none => .ok true                                  -- std::is_floating_point<Rep>
-    | some t =>
-      if !src.isIntegral then .ok false
-      else if !sf.isInteger then .ok false
-      else canScaleThreshold t sf
+    | none => true                                      -- std::is_floating_point<Rep>
+    | some t => src.isIntegral && sf.isInteger && canScaleThreshold t sf
 
 /-- `PermitAsCarveOutForIntegerPromotion`. -/
 def carveOut (rep : Rep) (sf : Mag) (src : Rep) : Bool :=
   decide (sf = []) && rep.isIntegral && src.isIntegral
 
 /-- `ConstructionPolicy<U, Rep>::PermitImplicitFrom<SourceUnit, SourceRep>` for two units of
-dimension Time (`HasSameDimension` holds): `stdx::disjunction` instantiates the carve-out only when
-the core policy is false. -/
-def permitImplicitFrom (tgtMag : Mag) (tgtRep : Rep) (srcMag : Mag) (srcRep : Rep) : Outcome Bool :=
+dimension Time (`HasSameDimension` holds). -/
+def permitImplicitFrom (tgtMag : Mag) (tgtRep : Rep) (srcMag : Mag) (srcRep : Rep) : Bool :=
   let sf := Mag.div srcMag tgtMag
-  match corePolicy tgtRep sf srcRep with
-  | .hard w => .hard w
-  | .ok true => .ok true
-  | .ok false => .ok (carveOut tgtRep sf srcRep)
+  corePolicy tgtRep sf srcRep || carveOut tgtRep sf srcRep
 
 /-- `std::is_convertible<Quantity<U₁,R₁>, Quantity<U₂,R₂>>`: the implicit constructor is the only
 viable conversion. -/
-def quantityConvertible (tgtMag : Mag) (tgtRep : Rep) (q : Quantity) : Outcome Bool :=
+def quantityConvertible (tgtMag : Mag) (tgtRep : Rep) (q : Quantity) : Bool :=
   permitImplicitFrom tgtMag tgtRep q.mag q.rep
 
 /-- `std::is_convertible<duration<Rep, Period>, Quantity<U, R>>`: the constructor template
 `Quantity(T&&)` is enabled by `is_convertible<CorrespondingQuantityT<T>, Quantity>` (quantity.hh:137-141). -/
-def durationAccepted (tgtMag : Mag) (tgtRep : Rep) (d : Duration) : Outcome Bool :=
+def durationAccepted (tgtMag : Mag) (tgtRep : Rep) (d : Duration) : Bool :=
   quantityConvertible tgtMag tgtRep (asQuantity d)
 
 /-- `ImplicitRepPermitted<Rep, SF>` = `CoreImplicitConversionPolicy<Rep, SF, Rep>`, as consulted by
 the unit-only `Quantity::as(unit)`; a `false` is a `static_assert` failure there. -/
 def asUnitOnlyOk (rep : Rep) (sf : Mag) : Outcome Unit :=
-  match corePolicy rep sf rep with
-  | .hard w => .hard w
-  | .ok true => .ok ()
-  | .ok false => .hard "Dangerous conversion for integer Rep!"
+  if corePolicy rep sf rep then .ok () else .hard "Dangerous conversion for integer Rep!"
 
 /-! ## Conversion back: the conversion operator and `as_chrono_duration` -/
 
@@ -344,11 +337,8 @@ with identical rep is modelled for the value (that is what the round trip uses);
 conversions are `none`. -/
 def toDuration (q : Quantity) (r : Rep) (p : Period) : Outcome (Option Duration) :=
   let u := corrUnit r p
-  match permitImplicitFrom u.2 r q.mag q.rep with
-  | .hard w => .hard w
-  | .ok false => .hard "no viable conversion"
-  | .ok true =>
-    if Mag.div q.mag u.2 = [] ∧ q.rep = r then .ok (some ⟨r, p, q.value⟩) else .ok none
+  if !permitImplicitFrom u.2 r q.mag q.rep then .hard "no viable conversion"
+  else if Mag.div q.mag u.2 = [] ∧ q.rep = r then .ok (some ⟨r, p, q.value⟩) else .ok none
 
 /-- `as_chrono_duration(q)` (chrono_interop.hh:72-80). -/
 def asChronoDuration (q : Quantity) : Outcome (Option Duration) :=
@@ -453,33 +443,17 @@ def scaleToCommon (R : Rounding) (cr : Rep) (sf : Mag) (r : Rep) (x : Val) : Res
 def castToCommon (R : Rounding) (cm : Mag) (cr : Rep) (q : Quantity) : Res Val :=
   scaleToCommon R cr (Mag.div q.mag cm) q.rep q.value
 
-/-- Overload resolution for `q1 op q2` finds, by ADL, the hidden friends `op(Q, Q)` of both
-operand classes (quantity.hh:250-264) and has to decide whether the other operand converts
-implicitly to `Q`.  That question instantiates `ConstructionPolicy<…>::PermitImplicitFrom` and is
-itself ill-formed in the region of finding F2 (integral reps, integer factor that does not fit the
-target rep).  When it has an answer the friend is at best viable through a user-defined conversion
-and loses to the exact-match template, so only well-formedness matters. -/
-def friendsWellFormed (q1 q2 : Quantity) : Outcome Unit :=
-  match permitImplicitFrom q1.mag q1.rep q2.mag q2.rep with
-  | .hard w => .hard w
-  | .ok _ =>
-    match permitImplicitFrom q2.mag q2.rep q1.mag q1.rep with
-    | .hard w => .hard w
-    | .ok _ => .ok ()
-
-/-- What the documentation promises for `q1 op q2`: both `cast_to_common_type` calls pass the
-`static_assert` of the unit-only `as` (the overflow-threshold policy on the common rep). -/
-def policyCompiles (q1 q2 : Quantity) : Outcome Unit :=
+/-- Whether `q1 op q2` is well-formed: both `cast_to_common_type` calls pass the `static_assert`
+of the unit-only `as` (the overflow-threshold policy on the common rep).  Overload resolution also
+meets the hidden friends `op(Q, Q)` of both operand classes (quantity.hh:250-264) and asks whether
+the other operand converts implicitly to `Q`; since the fix of finding F2 that question always has
+an answer, and a friend that is viable only through a user-defined conversion loses to the
+exact-match template, so it does not influence the outcome. -/
+def mixedCompiles (q1 q2 : Quantity) : Outcome Unit :=
   let (cm, cr) := commonQuantity q1 q2
   match asUnitOnlyOk cr (Mag.div q1.mag cm) with
   | .hard w => .hard w
   | .ok () => asUnitOnlyOk cr (Mag.div q2.mag cm)
-
-/-- Whether `q1 op q2` is well-formed on the code as it is. -/
-def mixedCompiles (q1 q2 : Quantity) : Outcome Unit :=
-  match friendsWellFormed q1 q2 with
-  | .hard w => .hard w
-  | .ok () => policyCompiles q1 q2
 
 /-- `q1 op q2` through `detail::using_common_type`. -/
 def quantityOp (R : Rounding) (op : Op) (q1 q2 : Quantity) : Res OpVal :=
@@ -487,8 +461,7 @@ def quantityOp (R : Rounding) (op : Op) (q1 q2 : Quantity) : Res OpVal :=
   (castToCommon R cm cr q1).bind fun a => (castToCommon R cm cr q2).bind fun b => applyOp R cr op a b
 
 /-- Whether `q op d` / `d op q` is well-formed for a `QLike` duration `d`: the QLike template
-forwards to `q op as_quantity(d)`; the hidden friends of `q`'s class met on the way ask whether `d`
-converts to `q`'s type, which is `durationAccepted` = the first question of `friendsWellFormed`. -/
+forwards to `q op as_quantity(d)`. -/
 def mixedCompilesQD (q : Quantity) (d : Duration) : Outcome Unit := mixedCompiles q (asQuantity d)
 
 /-- `q op d` and `d op q` for a `QLike` duration (quantity.hh:766-832). -/
